@@ -672,3 +672,12 @@ pub proof fn axiom_rc_string_len_isize(s: std::rc::Rc<String>)
     ensures encode_utf8(s@).len() <= isize::MAX,
 {}
 } // verus!
+verus! {
+pub uninterp spec fn spec_starts_with<P>(s: Seq<char>, p: P) -> bool;
+#[verifier::allow(undeclared_external_trait)]
+pub assume_specification<P: std::str::pattern::Pattern> [str::starts_with::<P>] (s: &str, pat: P) -> (r: bool)
+    ensures r == spec_starts_with(s@, pat);
+#[verifier::external_body]
+pub broadcast proof fn axiom_starts_with_str(s: Seq<char>, p: &str)
+    ensures #[trigger] spec_starts_with(s, p) == (s.len() >= p@.len() && s.take(p@.len() as int) == p@) {}
+} // verus!
